@@ -88,4 +88,110 @@ theorem appendFor_fail {cfg : Cfg} {s : State} {L : Layout} {rest : List BaseRes
   · simp only [if_neg hlt]
     exact ⟨_, _, rfl⟩
 
+/-! ## The slow path under a refusing base allocator -/
+/-- the slow path with a refusing base allocator, when no existing chunk has room: an error value -/
+theorem inAnotherChunk_fail {cfg : Cfg} {k : Kind} {s : State} {L : Layout} {h : Hints} {rest : List BaseResp}
+    (hH : Spec.HeaderOK cfg.hdr) (hmin : cfg.minChunk < 2^64) (hL : L.Valid)
+    (hr : s.resps = .fail :: rest)
+    (hw : ∀ i, s.cur = .chunk i → i < s.chunks.length ∧
+      ∃ s1, walkNext cfg k L h (s.chunks.length - (i+1)) i s = .ok (none, s1)) :
+    ∃ s' e, inAnotherChunk cfg k s L h = .ok (s', .error e) := by
+  rw [inAnotherChunk_eq]
+  obtain ⟨cu, hcur⟩ : ∃ cu, s.cur = cu := ⟨_, rfl⟩
+  cases cu with
+  | claimed => simp only [hcur]; exact ⟨_, _, rfl⟩
+  | unallocated =>
+    simp only [hcur]
+    obtain ⟨s1, e1, h1⟩ := newChunkForCapacity_fail (s := s) (L := L) hH hmin hL hr
+    rw [h1]
+    exact ⟨_, _, rfl⟩
+  | chunk i =>
+    simp only [hcur]
+    obtain ⟨hi, s1, h1⟩ := hw i hcur
+    rw [h1]
+    simp only [bind_ok]
+    obtain ⟨w1, w2, w3, _⟩ := walkNext_frame _ _ _ h1
+    have hne : s1.chunks ≠ [] := by
+      intro h0
+      rw [h0] at w3
+      simp only [List.length_nil] at w3
+      omega
+    obtain ⟨s2, e2, h2⟩ := appendFor_fail (s := s1) (L := L) hH hmin hL hne (w2.trans hr)
+    rw [h2]
+    exact ⟨_, _, rfl⟩
+
+theorem allocGeneric_fail {cfg : Cfg} {k : Kind} {s : State} {L : Layout} {h hs : Hints} {rest : List BaseResp}
+    (hH : Spec.HeaderOK cfg.hdr) (hmin : cfg.minChunk < 2^64) (hL : L.Valid)
+    (hr : s.resps = .fail :: rest)
+    (hfast : tryCur cfg k s L h = .ok none)
+    (hw : ∀ i, s.cur = .chunk i → i < s.chunks.length ∧
+      ∃ s1, walkNext cfg k L hs (s.chunks.length - (i+1)) i s = .ok (none, s1)) :
+    ∃ s' e, allocGeneric cfg k s L h hs = .ok (s', .error e) := by
+  unfold allocGeneric
+  rw [hfast]
+  exact inAnotherChunk_fail hH hmin hL hr hw
+
+theorem alloc_fail {cfg : Cfg} {s : State} {L : Layout} {rest : List BaseResp}
+    (hH : Spec.HeaderOK cfg.hdr) (hmin : cfg.minChunk < 2^64) (hL : L.Valid)
+    (hr : s.resps = .fail :: rest)
+    (hfast : tryCur cfg .alloc s L Hints.custom = .ok none)
+    (hw : ∀ i, s.cur = .chunk i → i < s.chunks.length ∧
+      ∃ s1, walkNext cfg .alloc L Hints.custom (s.chunks.length - (i+1)) i s = .ok (none, s1)) :
+    ∃ s' e, alloc cfg s L = .ok (s', .error e) := by
+  unfold alloc
+  obtain ⟨s', e, h1⟩ := allocGeneric_fail (hs := Hints.custom) hH hmin hL hr hfast hw
+  rw [h1]
+  exact ⟨_, _, rfl⟩
+
+/-- a size of at most `isize::MAX` with alignment 1 is a valid layout -/
+theorem valid_of_layoutOk {n : Nat} (h : layoutOk n 1 = true) : ({ size := n, align := 1 } : Layout).Valid := by
+  unfold layoutOk at h
+  exact ⟨⟨0, by decide, rfl⟩, of_decide_eq_true h⟩
+
+/-- `reserve` with a refusing base allocator never faults; if it reports success nothing was needed
+    and nothing changed -/
+theorem reserve_fail {cfg : Cfg} {s : State} {add : Nat} {rest : List BaseResp}
+    (hH : Spec.HeaderOK cfg.hdr) (hmin : cfg.minChunk < 2^64)
+    (hr : s.resps = .fail :: rest)
+    (hi : ∀ i, s.cur = .chunk i → i < s.chunks.length) :
+    ∃ s' r, reserve cfg s add = .ok (s', r) ∧ (r = .ok () → s' = s) := by
+  unfold reserve
+  obtain ⟨cu, hcur⟩ : ∃ cu, s.cur = cu := ⟨_, rfl⟩
+  cases cu with
+  | claimed => simp only [hcur]; exact ⟨_, _, rfl, fun _ => rfl⟩
+  | unallocated =>
+    simp only [hcur]
+    cases hl : layoutOk add 1 with
+    | false => simp only [Bool.not_false, ↓reduceIte]; exact ⟨_, _, rfl, fun _ => rfl⟩
+    | true =>
+      simp only [Bool.not_true, Bool.false_eq_true, ↓reduceIte]
+      obtain ⟨s1, e1, h1⟩ := newChunkForCapacity_fail (s := s) hH hmin (valid_of_layoutOk hl) hr
+      rw [h1]
+      exact ⟨_, _, rfl, fun h => by cases h⟩
+  | chunk i =>
+    simp only [hcur]
+    have hlt := hi i hcur
+    rw [List.getElem?_eq_getElem hlt]
+    simp only
+    cases Rs.checked_sub add (s.chunks[i].remaining cfg) with
+    | none => exact ⟨_, _, rfl, fun _ => rfl⟩
+    | some r1 =>
+      simp only
+      cases walkReserve cfg s.chunks (s.chunks.length - (i + 1)) i r1 with
+      | none => exact ⟨_, _, rfl, fun _ => rfl⟩
+      | some r2 =>
+        simp only
+        by_cases h0 : r2 = 0
+        · simp only [h0, ↓reduceIte]; exact ⟨_, _, rfl, fun _ => rfl⟩
+        · simp only [h0, ↓reduceIte]
+          cases hl : layoutOk r2 1 with
+          | false => simp only [Bool.not_false, ↓reduceIte]; exact ⟨_, _, rfl, fun _ => rfl⟩
+          | true =>
+            simp only [Bool.not_true, Bool.false_eq_true, ↓reduceIte]
+            have hne : s.chunks ≠ [] := by
+              intro h0; rw [h0] at hlt; simp only [List.length_nil] at hlt; omega
+            obtain ⟨s1, e1, h1⟩ := appendFor_fail (s := s) hH hmin (valid_of_layoutOk hl) hne hr
+            rw [h1]
+            exact ⟨_, _, rfl, fun h => by cases h⟩
+
 end Ledger
